@@ -1349,7 +1349,7 @@ Qed.
 Theorem receive_seq_spec self s : bytes_ok s = true ->
   np (receive_seq_c clob self s) /\ alloc (receive_seq_c clob self s) <= 2 * len s + TagsMax.
 Proof.
-  intros Hs. unfold receive_seq_c. pose proof (len_nonneg s).
+  intros Hs. unfold receive_seq_c, session_of_talk. pose proof (len_nonneg s).
   destruct (recv_stream_spec (S (length s)) self [] s st_wf_nil Hs) as [R1 R2].
   assert (Hsl : slack (recv_stream clob (S (length s)) self [] s) <= TagsMax).
   { unfold slack. generalize (outcome (recv_stream clob (S (length s)) self [] s)). intros o. destruct o; unfold TagsMax; lia. }
@@ -1680,7 +1680,7 @@ Qed.
 
 Theorem receive_seq_fuel self s : bytes_ok s = true -> outcome (receive_seq_c clob self s) <> Err EFuel.
 Proof.
-  intros Hs. unfold receive_seq_c.
+  intros Hs. unfold receive_seq_c, session_of_talk.
   pose proof (recv_stream_fuel (S (length s)) self [] s st_wf_nil Hs ltac:(lia)) as Hr. unfold anofuel in Hr.
   destruct (outcome (recv_stream clob (S (length s)) self [] s)) as [st|e|] eqn:Er.
   - rewrite (abind_ok _ _ _ Er). discriminate.
@@ -1690,6 +1690,12 @@ Qed.
 
 
 End ClobberFuel.
+
+(* the two constructors of the server-side Session agree on what receive() touches *)
+Lemma session_constructors_agree : session_of_talkSub = session_of_talk /\ st_wf session_of_talkSub.
+Proof. split; [reflexivity | constructor]. Qed.
+Lemma receive_seqf_is_receive_seq clob self s : receive_seqf_c clob self s = receive_seq_c clob self s.
+Proof. reflexivity. Qed.
 
 (* ===================================================================================
    11. Session.JSON: the text is one JSON value followed by nothing, whatever the leaves are,
